@@ -236,12 +236,14 @@ class PercentFormatString:
             for match in matches
             if match.group("conversion_type") is not None
         )
-        raw_pieces = [match.group("pre_match") for match in matches]
-        if len(raw_pieces) == len(specifiers) + 2:
-            raw_pieces = raw_pieces[:-1]
-        if pattern.endswith("\n"):
-            # due to a quirk in the re module, the final newline otherwise gets removed
-            raw_pieces[-1] += "\n"
+        # The text before each specifier, then everything after the last one. ("$" also
+        # matches just before a trailing newline, so the matches without a specifier
+        # cannot be used to find the final piece.)
+        spec_matches = [
+            match for match in matches if match.group("conversion_type") is not None
+        ]
+        raw_pieces = [match.group("pre_match") for match in spec_matches]
+        raw_pieces.append(pattern[spec_matches[-1].end() if spec_matches else 0 :])
         return cls(
             pattern, is_bytes=False, specifiers=specifiers, raw_pieces=tuple(raw_pieces)
         )
@@ -255,12 +257,14 @@ class PercentFormatString:
             for match in matches
             if match.group("conversion_type") is not None
         )
-        raw_pieces = [match.group("pre_match") for match in matches]
-        if len(raw_pieces) == len(specifiers) + 2:
-            raw_pieces = raw_pieces[:-1]
-        if pattern.endswith(b"\n"):
-            # due to a quirk in the re module, the final newline otherwise gets removed
-            raw_pieces[-1] += b"\n"
+        # The text before each specifier, then everything after the last one. ("$" also
+        # matches just before a trailing newline, so the matches without a specifier
+        # cannot be used to find the final piece.)
+        spec_matches = [
+            match for match in matches if match.group("conversion_type") is not None
+        ]
+        raw_pieces = [match.group("pre_match") for match in spec_matches]
+        raw_pieces.append(pattern[spec_matches[-1].end() if spec_matches else 0 :])
         return cls(
             pattern, is_bytes=True, specifiers=specifiers, raw_pieces=tuple(raw_pieces)
         )
